@@ -44,7 +44,7 @@ REVIEWED = [
     (r'^info_hash::InfoHash::from_ip$', r'^(IndexMut::index_mut\(repeat, (RangeTo\{[48]\}|Range\{3, 19\})\)|Index::index\(Ipv[46]Addr::octets\(ip\.0\), RangeTo\{[48]\}\)|Index::index\(agg, Range\{0, agg\}\)|<impl \[T\]>::copy_from_slice\()', 'constant ranges ..4 / ..8 / 3..19 / 0..num_octets within arrays of 4, 8, 16, 20 bytes; both sides of copy_from_slice have the same constant length'),
     (r'^info_hash::InfoHash::from_ip$', r'^overflow:Sh[lr]\(', 'constant shift amounts below the operand width'),
     (r'^info_hash::InfoHash::flip_bit$', r'.', 'documented panic for index >= 160; callers pass 0..MAX_BUCKETS (bootstrap loop) or the refresh cursor (reset before use, C11)'),
-    (r'^info_hash::InfoHash::leading_zeros$', r'^overflow:Add\(bits, <impl u8>::leading_zeros', 'sum of at most 20 values <= 8'),
+    (r'^info_hash::InfoHash::leading_zeros$', r'^overflow:Add\(\w+, <impl u8>::leading_zeros', 'sum of at most 20 values <= 8'),
     (r'^compact::nodes::(serialize|deserialize)$', r'^overflow:Add\(info_hash::NODE_ID_LEN, const\)$', '20 + ADDR_LEN with ADDR_LEN in {6, 18}'),
     (r'^compact::nodes::serialize$', r'^overflow:Mul\(<impl \[T\]>::len\(nodes\)', 'number of nodes times 26/38'),
     (r'^compact::nodes::deserialize$', r'^<impl \[T\]>::chunks_exact\(', 'chunk size 20 + ADDR_LEN > 0'),
